@@ -60,7 +60,8 @@ mod verif_witness_c04 {
         parent_of.insert(0, vec![]);
         for k in 1..n_scopes {
             let p = rng.below(ids.len());
-            let id = b.add_scope(ids[p], if rng.below(2) == 0 { Some(loc(k as u32)) } else { None });
+            // locations come from a small pool: `nest` called in a loop or through a helper gives siblings the SAME location
+            let id = b.add_scope(ids[p], if rng.below(3) > 0 { Some(loc(rng.below(3) as u32)) } else { None });
             assert_eq!(ids.len(), k, "scopes are numbered in creation order");
             parent_of.insert(k, vec![p]);
             ids.push(id);
@@ -141,8 +142,10 @@ mod verif_witness_c04 {
         let u8_ = Type::ScalarPrimitive(ScalarPrimitive::U8);
         let mut b = ScopeGraph::builder(loc(0));
         let root = b.root_scope_id();
+        // both nested from the same line (a loop / a helper function): still two scopes
         let left = b.add_scope(root, Some(loc(1)));
-        let right = b.add_scope(root, Some(loc(2)));
+        let right = b.add_scope(root, Some(loc(1)));
+        assert_ne!(left, right, "two nest calls give two scopes, whatever their location");
         let left_route = b.add_scope(left, None);
         let right_route = b.add_scope(right, None);
         let graph = b.build();
